@@ -11,6 +11,8 @@ from insights.contrib.toposort import toposort
 
 def oracle(chk, world, r, case):
     b = r.broker
+    if getattr(r, "edges_changed", None):
+        chk.failure(r.edges_changed, case)
     if case.get("mode") == "loaded-archive-history" and case.get("_replaying"):
         history_oracle(chk, world, case)
     if r.error is not None:
@@ -49,6 +51,26 @@ def oracle(chk, world, r, case):
             chk.failure("seeded value of %d changed: %s -> %r" % (cid, v, b.instances.get(comp)), case)
         if cid in att or cid in bodies:
             chk.failure("seeded component %d was recomputed" % cid, case)
+
+
+def incremental(world, seeds, ss, graph, mode, pool_seed=0):
+    """sub-graph after sub-graph on ONE broker: serially (run_incremental) or through run_all on a pool that starts
+    every task only after all of them were submitted (tasks run in a PRNG-chosen order)"""
+    import random
+    b = world.new_broker(seeds, ss)
+    W.instrument(world, b)
+    world.calls = []
+    edges = world.edge_snapshot()
+    err = None
+    try:
+        g = dict((k, set(v)) for k, v in graph.items())
+        if mode == "pooled":
+            dr.run_all(g, b, W.DeferPool(random.Random(pool_seed)))
+        else:
+            list(dr.run_incremental(g, b))
+    except Exception as ex:
+        err = ex
+    return list(b.vlog["attempts"]), world.edges_changed(edges), err
 
 
 def history_oracle(chk, world, case):
@@ -104,26 +126,26 @@ def run(chk):
             impl.append(r.text)
             cases.append(case)
         if idx % 5 in (2, 3):
-            # sub-graph after sub-graph on ONE broker: still at most once per component
-            b = world.new_broker(seeds, ss)
-            W.instrument(world, b)
-            world.calls = []
-            try:
-                list(dr.run_incremental(dict((k, set(v)) for k, v in graph.items()), b))
-                att = b.vlog["attempts"]
+            # sub-graph after sub-graph on ONE broker (serially, and through run_all on a deferring pool): still at most
+            # once per component, nothing outside the graph, the declared edges untouched
+            for mode in ("incremental", "pooled"):
+                icase = {"spec": W.strip(spec), "seeds": seeds, "targets": targets, "order": None, "store_skips": ss,
+                         "dropped": dropped, "mode": mode, "pool_seed": idx}
+                att, why, err = incremental(world, seeds, ss, graph, mode, idx)
                 twice = sorted(set(c for c in att if att.count(c) > 1))
                 if twice:
-                    chk.failure("run_incremental on one broker attempted %s more than once (attempts %s)" % (twice, att),
-                                {"spec": W.strip(spec), "seeds": seeds, "targets": targets, "order": None, "store_skips": ss,
-                                 "dropped": dropped, "mode": "incremental"})
+                    chk.failure("%s evaluation on one broker attempted %s more than once (attempts %s)" % (mode, twice, att), icase)
                 foreign = sorted(set(c for c in att if world.comps[c] not in graph))
                 if foreign:
-                    chk.failure("components outside the graph were attempted: %s" % foreign,
-                                {"spec": W.strip(spec), "seeds": seeds, "targets": targets, "order": None, "store_skips": ss,
-                                 "dropped": dropped, "mode": "incremental"})
-            except Exception as ex:
-                chk.failure("run_incremental raised %r" % (ex,), {"spec": W.strip(spec), "seeds": seeds, "targets": targets,
-                                                                    "order": None, "store_skips": ss, "dropped": dropped, "mode": "incremental"})
+                    chk.failure("%s evaluation: components outside the graph were attempted: %s" % (mode, foreign), icase)
+                if why:
+                    chk.failure("%s evaluation: %s" % (mode, why), icase)
+                if err is not None:
+                    chk.failure("%s evaluation raised %r" % (mode, err), icase)
+                if mode == "incremental":
+                    serial_att = sorted(att)
+                elif err is None and sorted(att) != serial_att:
+                    chk.failure("pooled evaluation attempted %s, the serial evaluation of the same sub-graphs attempted %s" % (sorted(att), serial_att), icase)
             chk.count("incremental-schedule")
         if idx % 5 in (0, 4):
             # history: an evaluation of a LOADED archive (SerializedArchiveContext in the broker, components with
@@ -192,17 +214,28 @@ def run(chk):
 
 def replay(data):
     case = data["case"]
-    if case.get("mode") == "incremental":
+    if case.get("mode") in ("incremental", "pooled"):
         world, seeds, graph = W.rebuild(case)
         if case.get("dropped") is not None:
             graph.pop(world.comps[case["dropped"]], None)
-        b = world.new_broker(seeds, case.get("store_skips", False))
-        W.instrument(world, b)
-        list(dr.run_incremental(dict((k, set(v)) for k, v in graph.items()), b))
-        att = b.vlog["attempts"]
+        att, why, err = incremental(world, seeds, case.get("store_skips", False), graph, case.get("mode"), case.get("pool_seed", 0))
         twice = sorted(set(c for c in att if att.count(c) > 1))
         foreign = sorted(set(c for c in att if world.comps[c] not in graph))
-        print("run_incremental attempts:", att, "twice:", twice, "outside the graph:", foreign)
-        print("property violated on this input" if twice or foreign else "property holds on this input")
-        return 1 if twice or foreign else 0
+        print("%s evaluation of the sub-graphs on one broker: attempts %s, twice: %s, outside the graph: %s" % (case.get("mode"), att, twice, foreign))
+        if why:
+            print("oracle:", why)
+        if err:
+            print("oracle: raised", repr(err))
+        differs = False
+        if case.get("mode") == "pooled" and not err:
+            w2, s2, g2 = W.rebuild(case)
+            if case.get("dropped") is not None:
+                g2.pop(w2.comps[case["dropped"]], None)
+            satt = sorted(incremental(w2, s2, case.get("store_skips", False), g2, "incremental")[0])
+            differs = sorted(att) != satt
+            if differs:
+                print("oracle: the serial evaluation of the same sub-graphs attempts %s" % satt)
+        bad = bool(twice or foreign or why or err or differs)
+        print("property violated on this input" if bad else "property holds on this input")
+        return 1 if bad else 0
     return W.generic_replay(data, oracle)
